@@ -30,8 +30,11 @@ def marker_lemma(rep: common.Report) -> None:
         R = z3.Concat(z3.Star(z3.Union(z3.Re(" "), z3.Re("\t"))), z3.Re(start), z3.Re("*"))
         sol = z3.Solver()
         sol.set("timeout", 60000)
-        sol.add(z3.InRe(s, z3.Concat(z3.Full(z3.ReSort(z3.StringSort())), R, z3.Full(z3.ReSort(z3.StringSort())))))
-        sol.add(z3.Not(z3.Contains(s, z3.StringVal(start + "*"))))
+        # whatever text the added alternative itself matches contains the literal marker (the alternative is: blanks, start string, '*')
+        # stated as a regular-language inclusion (z3's sequence solver answers 'unknown' on the str.contains form)
+        anyc = z3.Full(z3.ReSort(z3.StringSort()))
+        sol.add(z3.InRe(s, R))
+        sol.add(z3.Not(z3.InRe(s, z3.Concat(anyc, z3.Re(start + "*"), anyc))))
         t0 = time.time()
         r = sol.check()
         rep.solver_s += time.time() - t0
